@@ -346,7 +346,7 @@ def run(p, led, tier):
                         obj.fields[fld] = Unknown(fld)
                 mark = len(it.events)
                 try:
-                    r = it.call_fi(runm_, [obj, Unknown("user_prompt")], {})
+                    r = it.call_fi(runm_, [obj, Unknown("user_prompt", kind="str")], {})
                     return dict(kind="return", events=it.events[mark:], blocked=r.fields.get("blocked") if isinstance(r, Obj) else None)
                 except PyRaise as e:
                     return dict(kind="raise", exc=repr(e.exc), events=it.events[mark:])
